@@ -160,6 +160,9 @@ def only_tokens(ctx, rule):
     takes = [bi for bi, t in b.calls() if q.nice(t.get("callee")) == "mem::take" and q.shape(q.arg_expr(b, t, 0)) == "arg1.tokens"]
     ctx.check(len(takes) == 1 and all(b.dominates(takes[0], r) for r in b.return_blocks()), rule, ADJ, "take:every-path",
               "the old tokens are taken out of the map on every path (no early return leaves unadjusted tokens behind, e.g. for an empty adjustment)")
+    ops = sorted(set(q.nice(t.get("callee")) for bi, t in b.calls() if t["args"] and q.shape(q.arg_expr(b, t, 0)) == "arg1.tokens"))
+    ctx.check(set(ops) <= {"mem::take", "Vec::push", "slice::sort_unstable_by_key", "slice::sort_by_key", "Vec::reserve", "Vec::with_capacity", "DerefMut::deref_mut", "Deref::deref"} and "Vec::push" in ops, rule, ADJ, "tokens:ops",
+              "the new token list is only appended to and sorted (nothing removes, merges or reorders composed tokens: one token per overlap survives)", detail=str(ops))
     sig = b.sig or ""
     ctx.check("&'b types::SourceMap" in sig or ", &" in sig and "&'b mut" not in sig.split(",")[1] if "," in sig else False, rule, ADJ, "adjustment:immutable", "the adjustment map is borrowed immutably", detail=sig)
 
